@@ -17,7 +17,8 @@ RULE = ('cases = (prior memory, start address, data) for Game.write_cart_data ag
         'hash of data and prior memory).'
         " Histories also replace section objects (g.map = Map.from_bytes(...), as the loaders and build do) and copy memory inside the cart (data = the live buffer another region's to_bytes() returns); a twin cart made with from_bytes(to_bytes()) must keep its memory."
         ' Lengths include those of other PICO-8 memory images (0x7fff, 0x8000, 0x8001, 0x10000) at start addresses 0, 1, 0x2000, 0x4200, 0x42ff, 0x4300.'
-        " Origin from_p8_empty_sections: carts loaded from a .p8 whose gff/map/music (and sometimes gfx) sections are absent or header-only; the cart's label image must be unchanged by every write (inplace carts are make_empty_game() as it comes).")
+        " Origin from_p8_empty_sections: carts loaded from a .p8 whose gff/map/music (and sometimes gfx) sections are absent or header-only; the cart's label image must be unchanged by every write (inplace carts are make_empty_game() as it comes)."
+        ' Part "optimised" repeats every boundary pair and the ROM-image lengths in a `python -O` child process (assert statements compiled out).')
 ASSUMPTIONS = ['memory map gfx 0x0000, map 0x2000, gff 0x3000, music 0x3100, sfx 0x3200, end 0x4300 '
                '(PICO-8 manual)', 'start addresses are 0x0000..0x42ff (or beyond, for the reject clause); '
                'negative addresses are out of contract and not generated']
@@ -336,15 +337,87 @@ def part_history(ctx):
     ctx.machine('history', Writes, max_examples=60 if ctx.quick else 600, steps=12)
 
 
+# ---------------------------------------------------------------- the same writes under `python -O`
+
+OPT_SCRIPT = ('import sys, json; sys.path.insert(0, %r); from vlib import runner; runner._setup_paths(); '
+              'from checks import c18; print("C18OPT " + json.dumps(c18.optimised_cases(json.loads(sys.argv[1]))))')
+
+
+def optimised_cases(only=None):
+    """Runs inside a `python -O` child (assert statements compiled out): every boundary pair plus the ROM-image
+    lengths, deterministic fills.  Returns counters or the first violation."""
+    from vlib.runner import jsonable, unjson
+    if only is not None:
+        cases = [unjson(only)]
+    else:
+        pts = boundary_points()
+        cases = [{'prior_seed': expand(b'opt%d' % k, 24), 'addr': s, 'data': expand(bytes([s & 255, e & 255, 7]), e - s),
+                  'origin': 'inplace' if k % 4 else ORIGINS[1 + (k // 4) % 4]}
+                 for k, (s, e) in enumerate((s, e) for s in pts for e in pts if s <= e and not (s >= END and e == s))]
+        for k, n in enumerate((0x4300, 0x4301, 0x8000, 0x10000)):
+            for s in (0, 1, 0x42ff, 0x4300):
+                cases.append({'prior_seed': expand(b'optrom%d' % k, 24), 'addr': s, 'data': expand(b'o%d' % k, n),
+                              'origin': 'inplace'})
+    n = over = 0
+    for c in cases:
+        try:
+            one_case(None, c['prior_seed'], c['addr'], c['data'], bytes if n % 2 else bytearray, c.get('origin', 'inplace'))
+        except Violation as v:
+            case = dict(v.case if isinstance(v.case, dict) else c)
+            case['python_flags'] = '-O'
+            return {'violation': v.msg, 'case': jsonable(case), 'clause': v.clause}
+        n += 1
+        over += c['addr'] + len(c['data']) > END
+    return {'cases': n, 'overflow': over, 'optimize_flag': __import__('sys').flags.optimize}
+
+
+def run_optimised(only=None):
+    import json
+    import subprocess
+    import sys
+    from vlib import runner
+    from vlib.runner import jsonable, unjson
+    env = dict(__import__('os').environ, VERIF_REPO=runner.REPO, PYTHONDONTWRITEBYTECODE='1')
+    env.pop('PYTHONOPTIMIZE', None)
+    p = subprocess.run([sys.executable, '-O', '-c', OPT_SCRIPT % runner.VERIF, json.dumps(jsonable(only))],
+                       cwd=runner.VERIF, env=env, capture_output=True, text=True, timeout=900)
+    line = [ln for ln in p.stdout.splitlines() if ln.startswith('C18OPT ')]
+    if p.returncode != 0 or not line:
+        raise runner.HarnessError('python -O child failed (rc %r): %s' % (p.returncode, p.stderr[-400:]))
+    res = json.loads(line[-1][7:])
+    if res.get('violation'):
+        raise Violation('under `python -O` (assert statements compiled out): ' + res['violation'],
+                        unjson(res['case']), res.get('clause', 'optimised'))
+    return res
+
+
+def part_optimised(ctx):
+    """Interpreter flags are process-wide settings a user chooses: `python -O` / PYTHONOPTIMIZE=1 must not remove the
+    range check (rule 8 of DESIGN 7.1)."""
+    res = run_optimised()
+    if res.get('optimize_flag') != 1:
+        from vlib import runner
+        raise runner.HarnessError('child did not run with -O: %r' % res)
+    ctx.stats.extra['python_O_cases'] = res['cases']
+    for k in range(res['cases']):
+        ctx.stats.case(('opt', k), k < res['overflow'], {'python_-O_case': k} if k < 2 else None,
+                       ['python_-O'] + (['python_-O_overflow'] if k < res['overflow'] else []))
+
+
 def parts(tier):
     if tier == 'quick':
-        return [('boundary', part_boundary, 1), ('random', part_random, 1), ('history', part_history, 1)]
-    return [('boundary', part_boundary, 4), ('random', part_random, 8), ('history', part_history, 4)]
+        return [('boundary', part_boundary, 1), ('random', part_random, 1), ('history', part_history, 1),
+                ('optimised', part_optimised, 1)]
+    return [('boundary', part_boundary, 4), ('random', part_random, 8), ('history', part_history, 4),
+            ('optimised', part_optimised, 1)]
 
 
 def replay(case):
     prior_seed = case['prior_seed']
     origin = case.get('origin', 'inplace')
+    if case.get('python_flags') == '-O':
+        run_optimised({k: v for k, v in case.items() if k in ('prior_seed', 'addr', 'data', 'origin')})
+        return
     if 'addr' not in case and not case.get('history'):
         one_case(None, prior_seed, 0, b'', origin=origin)
         return
@@ -374,7 +447,8 @@ def replay(case):
 def vacuity(total, tier):
     msgs = []
     for lab in ('starts_on_boundary', 'ends_on_boundary', 'spans_regions', 'overflow', 'origin_from_p8', 'origin_from_png',
-                'origin_replaced', 'origin_from_p8_empty_sections', 'section_replaced', 'data_is_region_buffer'):
+                'origin_replaced', 'origin_from_p8_empty_sections', 'section_replaced', 'data_is_region_buffer',
+                'python_-O_overflow'):
         need = 3 if lab in ('section_replaced', 'data_is_region_buffer', 'origin_from_p8_empty_sections') else 20
         if total.classes.get(lab, 0) < need:
             msgs.append('class %s seen only %d times' % (lab, total.classes.get(lab, 0)))
